@@ -22,7 +22,8 @@ RULE = ("exhaustive: every string of length 0..L over alphabets of 1, 2, 3, 4 le
         "next_nearest == {y : 0 < d(x,y) <= maxdistance}; find_neighbor_pairs = each unordered distance-1 pair once; "
         "find_neighbor_pairs_index = all ordered index pairs at distance 1; calculate_neighbor_numbers; isdist1; nndist_hamming == "
         "min(true nearest Hamming distance, maxdist). Non-trivial: x contains a run of >= 2 equal letters, or is empty, or the "
-        "alphabet has one letter; for utilities: >= 1 true distance-1 pair.")
+        "alphabet has one letter; for utilities: >= 1 true distance-1 pair."
+        " One caller-owned set object is handed to find_neighbor_pairs and afterwards used as the reference of the other utilities.")
 ASSUMPTIONS = ["pair utilities receive lists of unique sequences (their documented domain)",
                "nndist_hamming receives equal-length strings (documented: it does not check lengths)"]
 EXHAUSTIVE = False  # exhaustive only within the stated length bounds (see per_sub)
@@ -111,7 +112,9 @@ def check_pair_utils(case, rec):
         d = O.ham
     truth = [(i, j) for i in range(len(seqs)) for j in range(len(seqs)) if i != j and d(seqs[i], seqs[j]) == 1]
     rec.note(case, bool(truth), [kind, f"pairs={min(len(truth) // 2, 5)}"])
-    pairs = call("find_neighbor_pairs", D.find_neighbor_pairs, list(seqs), nb)
+    # the caller's own reference set: handed to find_neighbor_pairs first and to the other utilities afterwards (same object)
+    shared = set(seqs) if (len(seqs) + len(case.get("queries", []))) % 2 else None
+    pairs = call("find_neighbor_pairs", D.find_neighbor_pairs, shared if shared is not None else list(seqs), nb)
     got = [frozenset(p) for p in pairs]
     want = [frozenset((seqs[i], seqs[j])) for i, j in truth if i < j]
     same_multiset("find_neighbor_pairs", got, want, f"seqs={seqs}")
@@ -127,16 +130,16 @@ def check_pair_utils(case, rec):
     # with an explicit reference set and queries outside it
     queries = case.get("queries", [])
     if queries:
-        ref = set(seqs)
+        ref = shared if shared is not None else set(seqs)
         nums2 = call("calculate_neighbor_numbers", D.calculate_neighbor_numbers, list(queries), ref, nb)
-        want2 = [sum(1 for r in ref if d(q, r) == 1) for q in queries]
+        want2 = [sum(1 for r in seqs if d(q, r) == 1) for q in queries]
         if [int(v) for v in nums2] != want2:
-            raise Violation("calculate_neighbor_numbers-reference", f"queries={queries} reference={sorted(ref)}: {list(nums2)} != {want2}")
+            raise Violation("calculate_neighbor_numbers-reference", f"queries={queries} reference=set of {sorted(seqs)}{' (the set object find_neighbor_pairs was given before)' if shared is not None else ''}: {list(nums2)} != {want2}")
         for q in list(queries) + list(seqs[:2]):      # also strings that are themselves members of the reference
             g = call("isdist1", D.isdist1, q, ref, nb)
-            w = any(d(q, r) == 1 for r in ref)
+            w = any(d(q, r) == 1 for r in seqs)
             if bool(g) != w:
-                raise Violation("isdist1", f"isdist1({q!r}, {sorted(ref)}) = {g!r}, expected {w}")
+                raise Violation("isdist1", f"isdist1({q!r}, set of {sorted(seqs)}) = {g!r}, expected {w}")
 
 
 def check_many_partners(case, rec):
